@@ -7,8 +7,8 @@ props = {json.loads(l)["id"]: json.loads(l) for l in open(os.path.join(HERE, "pr
 
 CLAIMS = {
  "C01": ("Pipeline.tla / PipelineTrace.tla",
-         "Pipeline.tla is checked exhaustively by TLC (40 node instances to length 2, four focus libraries to length 4/5, invariants + action properties) and every emitted terminal behaviour is replayed step by step into semantiva.Pipeline (spec->impl); recorded executions of longer random programs are batch-validated against the spec's own actions (impl->spec).",
-         "bounded by the constants in evidence; trusted: abstract/concrete library pairing (gamma), float(n) exact for |n| < 2^31",
+         "Pipeline.tla is checked exhaustively by TLC (about 65 node instances to length 2 -- incl. null-configured parameters, in-place and context-writing elements plain / sliced / swept, context-key-bound context processors --, five focus libraries to length 4/5, invariants + action properties) and every emitted terminal behaviour is replayed step by step into semantiva.Pipeline (spec->impl); recorded executions of longer random programs are batch-validated against the spec's own actions (impl->spec).",
+         "bounded by the constants in evidence; trusted: abstract/concrete library pairing (gamma), float(n) exact for |n| < 2^31; a handful of fixed pipelines is also run with awkward context values no node reads (numpy arrays, NaN, generators, ...)",
          "TLA+ spec + TLC exhaustive check; replay of TLC-emitted behaviours into the code; TLC batch trace validation of recorded runs"),
  "C02": ("Inspection.tla",
          "Inspection.tla states a two-pass order-sensitive inspector and TLC proves Sound and Exact against Pipeline.tla's dynamics for all programs in the bounds; every emitted (program, context, data) case is replayed: real inspection+validation vs real run (code vs code), per-node facts vs the run's context diff, origins vs the spec's lastWriter provenance.",
@@ -24,7 +24,7 @@ CLAIMS = {
          "TLA+ spec of SER content + TLC; field-by-field comparison of real SERs with spec-predicted SERs"),
  "C10": ("TraceStream.tla (PROPERTY Untraced)",
          "TLC checks that every traced behaviour projects onto an untraced Pipeline.tla behaviour (trace variables are history variables); each emitted behaviour is run untraced vs traced at a detail level, traced twice with fresh Pipelines, twice through one reused Pipeline and again after the worker's other history; normalised traces must be identical; hostile payload hooks (raising __len__/__repr__/to_bytes/__eq__, generators) must not change results.",
-         "volatile fields removed: run_id, timestamp, seq, timing; bounded",
+         "volatile fields removed: run_id, timestamp, seq, timing; bounded; plus: targets traced in a fresh interpreter with / without a history of cosmetic twins and near misses, the configuration edited in place after the Pipeline was built, hostile payload values (mixed-key mappings, surrogates, numpy arrays, NaN, non-JSON exception arguments)",
          "TLA+ refinement check with TLC; differential replay traced vs untraced and run vs re-run"),
 }
 PLANNED = {
